@@ -26,6 +26,10 @@ def corpus(seed, tier):
         for lim in lims:
             out.append((f'n{i}_{lim}', p, lim))
     dist['named'] = len(named[::stride])
+    for f in core.known_findings()['open']:         # recorded witnesses run first, every time
+        if 'C02' in f['properties']:
+            for j, w in enumerate(f.get('witnesses', [])):
+                out.insert(j, (f'k{f["id"]}_{j}', w['program'], int(w['limit'])))
 
     def strip(lines, tag):
         for l in lines:
@@ -144,6 +148,32 @@ def run(rep, tier, seed):
     cs, dist = corpus(seed, tier)
     h, m, diffs = run_traces(cs)
     fails, stats = oracle(cs, h, 2000000 if tier == 'quick' else 20000000)
+    # runs whose verdict rests on a rule application that is not a run of the real machine (finding F14; see C03)
+    from props import C03
+    _, allapps = C03.collect_apps(cs, h, 0)
+    flags, bstats = C03.boundary_checks(allapps, tier)
+    diverging = {d[0] for d in diffs}
+    byrun = {}
+    for fl in flags:
+        byrun.setdefault(fl[0].split('.')[0], fl)
+    failed = {f[0]: f for f in fails}
+    nf14 = 0
+    for cid, fl in byrun.items():
+        if cid in diverging:
+            if cid not in failed:
+                fails.append((cid, fl[1][1], 'the verdict rests on a rule application that is not a real run: '
+                              + C03.f14_text(fl).replace('F14 class: ', '')))
+            continue
+        nf14 += 1
+        r = parse_answer(h[cid])
+        why = failed[cid][2] if cid in failed else f'run_prover says {r["kind"]} (marks {r["marks"]}, rulapp {r["rulapp"]}); not confirmed by any real run'
+        if nf14 <= 3:
+            rep.known_finding(f'F14: {why}; the verdict rests on a rule application that is not a run of the machine: ' + C03.f14_text(fl))
+    fails = [f for f in fails if not (f[0] in byrun and f[0] not in diverging)]
+    if nf14:
+        rep.known_finding(f'F14 class: {nf14} runs in this corpus contain such an application (the faithful model performs it identically)')
+    stats['runs_with_F14_application'] = nf14
+    stats.update(bstats)
     kinds = {}
     napp = 0
     for cid, p, lim in cs:
